@@ -1,4 +1,5 @@
 import Failsafe.Conc.Future
+import Failsafe.Conc.TraceFuture
 import Failsafe.Exec
 /-!
 # C15 — async results follow the future protocol and agree with sync execution
@@ -53,5 +54,50 @@ either entry point at random and compares it with that one model. -/
 
 example : reach.any (fun s => s.pc == .closed && s.cancelCalls == 2) = true := by decide
 example : reach.length = 15 := by decide
+
+/-! ## TRACE tie: recorded runs of real asynchronous executions are replayed through the model
+
+`TraceFuture.osys` is `Conc.Future` plus the readers' observation points. `Trace.accepts` is exact (`Trace.accepts_iff`); the
+theorems below say what a reader's observation implies in every state an accepted trace can be in. -/
+section trace
+open Failsafe.Conc.TraceFuture
+
+theorem accepted_states_reachable (fuel : Nat) (tr : List Ev) (Y : List St) (h : Trace.accepts osys fuel tr = some Y) (t : St) (ht : t ∈ Y) :
+    Reachable Future.sys t :=
+  reach_core t (Trace.accepted_state_reachable osys fuel tr Y h t ht)
+
+/-- **a reader that gets `IsDone() = true` is later than the completion listeners and the result** -/
+theorem seen_isDone_imp (s : St) (hr : Trace.Reach osys s) (h : shows s .seeIsDone (.seeIsDone true) = true) :
+    s.resultVersion = 1 ∧ listenersRan s = true := by
+  simp only [shows, beq_iff_eq] at h
+  exact isDone_imp_result s (reach_core s hr) h
+
+/-- **a reader that finds `Done()` closed also gets `IsDone() = true`, the result, and the listeners have run** -/
+theorem seen_closed_imp (s : St) (hr : Trace.Reach osys s) (h : shows s .seeClosed (.seeClosed true) = true) :
+    s.doneFlag = true ∧ s.resultVersion = 1 ∧ listenersRan s = true := by
+  simp only [shows, beq_iff_eq, decide_eq_true_eq] at h
+  have hc := closed_once s (reach_core s hr)
+  have h1 : s.closes = 1 := by omega
+  have hd := closed_imp_isDone s (reach_core s hr) h1
+  exact ⟨hd, isDone_imp_result s (reach_core s hr) hd⟩
+
+/-- `Get()` only returns once the channel is closed, and then the result is there -/
+theorem got_imp (s : St) (hr : Trace.Reach osys s) (hst : TraceFuture.step s .got = some s) :
+    s.doneFlag = true ∧ s.resultVersion = 1 := by
+  simp only [TraceFuture.step] at hst
+  split at hst
+  · rename_i hc
+    have hc1 := closed_once s (reach_core s hr)
+    have hd := closed_imp_isDone s (reach_core s hr) (by omega)
+    exact ⟨hd, (isDone_imp_result s (reach_core s hr) hd).1⟩
+  · cases hst
+
+/-- non-vacuity, decided by running the acceptor: a protocol-conforming trace is accepted; `IsDone() = true` before the completion
+listener, or `Done()` closed while `IsDone()` is still false afterwards, is rejected -/
+example : (Trace.accepts osys 20 [.seeIsDone false, .listener, .seeClosed false, .seeIsDone true, .seeClosed true, .got]).map (·.isEmpty) = some false := by decide
+example : (Trace.accepts osys 20 [.seeIsDone true, .listener]).map (·.isEmpty) = some true := by decide
+example : (Trace.accepts osys 20 [.listener, .seeClosed true, .seeIsDone false]).map (·.isEmpty) = some true := by decide
+
+end trace
 
 end Failsafe.Props.C15
